@@ -103,6 +103,10 @@ def run(ctx):
     import mirq
     from props.c15 import dialect_rule
     dialect_rule(ctx, mirq.Program(ctx.facts.mir()), rid="C18.DIALECT")
+    # ... and a JSON save/reload must hand every annotation back with the same text selection: a target written without its
+    # offset comes back selecting nothing, and validation then reports unchanged text as invalid
+    from props.c05 import omit_rule
+    omit_rule(ctx, syn, rid="C18.OMIT")
     fns = [f for f in syn.fns if f.file == FILE]
     by = {}
     for f in fns:
